@@ -301,7 +301,7 @@ def lapp_setup(ctx):
     calls = {"adapt_typehints": adapt_model(ctx, accepts_of, log), UNEXPECTED: raise_unexpected, "deepcopy": lambda c, a, k: dict(a[0]), "list": concrete_list}
     consts = {"sequence_origin_types": (ClassRef("List"), ClassRef("list")), "NestedArg": ClassRef("NestedArg"), "Iterable": ClassRef("Iterable"), "mapping_origin_types": (ClassRef("dict"), ClassRef("Dict"))}
     noop = (lambda c, a, k: None, lambda c, t, e: False)
-    env = {"val": val, "typehint_origin": ClassRef("list"), "subtypehints": (ClassRef("T0"),), "append": mode.startswith("append"), "enable_path": False, "prev_val": prev, "adapt_kwargs": {"prev_val": prev}}
+    env = {"val": val, "typehint_origin": ClassRef("list"), "subtypehints": (ClassRef("T0"),), "append": mode.startswith("append"), "enable_path": False, "prev_val": prev, "adapt_kwargs": {"prev_val": prev, "append": mode.startswith("append")}}
     return Setup(env=env, calls=calls, consts=consts, cms={"change_to_path_dir": noop}, data=dict(mode=mode, prev_kind=prev_kind, P=P, scalar=scalar, new_items=new_items, nested=nested, log=log, prev=prev))
 
 
@@ -331,6 +331,9 @@ def lapp_post(ctx, st, result):
                    all((p is q) or (q == "<adapted scalar>" and is_z3(p)) or (q is None and p is None) for p, q in zip(pv, prevs)))
     if d["prev_kind"] == "scalar-rejected" and d["mode"].startswith("append"):
         ctx.oblige("post", "a-previous-value-that-is-no-valid-item-is-dropped,not-kept-as-a-bad-item" + tag, len(out) == len(items))
+    # `key+` appends to the list built so far: the items already in it stay what they are.  Handing the append flag down to the items made an item that is
+    # itself a list append to its own previous value (List[List[int]] [[1, 2]] + [[3]] gave [[1, 2, 1, 2], [3]]; fixed)
+    ctx.oblige("post", "the-list-is-appended-to,not-its-items:no-item-is-adapted-with-the-append-flag" + tag, not any(e[4].get("append") is True for e in log))
 
 
 def lapp_raises(ctx, st, exc):
